@@ -1551,7 +1551,8 @@ class AstEval:
         if self.curr_func is None and arg.annotation:
             annotations = self.sym_table.setdefault("__annotations__", {})
             ann = await self.aeval(arg.annotation)
-            if isinstance(arg.target, ast.Name):
+            if arg.simple and isinstance(arg.target, ast.Name):
+                # (a parenthesised name, "(x): int = 1", is evaluated but not recorded)
                 annotations[arg.target.id] = ann
 
     async def ast_namedexpr(self, arg):
